@@ -12,6 +12,25 @@ pub fn trace_json(t: &[Act]) -> Value {
     json!(t.iter().map(|a| a.to_json()).collect::<Vec<_>>())
 }
 
+/// Human-readable compact form for evidence samples: runs of identical actions are folded.
+pub fn trace_compact(t: &[Act]) -> Value {
+    let mut out: Vec<Value> = Vec::new();
+    let mut i = 0;
+    while i < t.len() {
+        let mut j = i;
+        while j < t.len() && t[j] == t[i] {
+            j += 1;
+        }
+        if j - i > 1 {
+            out.push(json!({"repeat": j - i, "action": t[i].to_json()}));
+        } else {
+            out.push(t[i].to_json());
+        }
+        i = j;
+    }
+    json!(out)
+}
+
 pub fn trace_from_json(v: &Value) -> Result<Vec<Act>, String> {
     v.as_array().ok_or("trace")?.iter().map(Act::from_json).collect()
 }
@@ -49,6 +68,7 @@ pub fn run_exchanges(cfgs: Vec<Arc<ExchCfg>>, lim: &Limits, require_single_outco
                 });
             }
             rep.add_extra_count("final_states", ex.finals);
+            rep.add_extra_count("hidden_state_probes", ex.probes);
             if ex.found.is_empty() {
                 if ex.finals == 0 {
                     rep.violation(Violation { key: format!("{}:no-final-state", cfg.prop), ord: i as u64 * 10_000, what: format!("exchange #{} has no reachable final state", i), replay: json!({"exchange": describe(cfg), "cfg_index": i, "trace": []}) });
@@ -76,7 +96,7 @@ pub fn run_exchanges(cfgs: Vec<Arc<ExchCfg>>, lim: &Limits, require_single_outco
                 }
             }
             if i % 97 == 3 {
-                rep.sample(json!({"exchange": describe(cfg), "states": ex.states, "transitions": ex.transitions, "final_states": ex.finals, "distinct_outcomes": ex.outcomes.len(), "one_trace": ex.final_traces.first().map(|t| trace_json(&t.0))}));
+                rep.sample(json!({"exchange": describe(cfg), "states": ex.states, "transitions": ex.transitions, "final_states": ex.finals, "distinct_outcomes": ex.outcomes.len(), "one_trace": ex.final_traces.first().map(|t| trace_compact(&t.0))}));
             }
             rep
         })
